@@ -413,6 +413,9 @@ func moveOutFile(w *bytes.Buffer, param *syntax.StructMember,
 		_, err := w.Write(nullBytes)
 		return err
 	}
+	// A directory may have been given with a trailing slash, with which
+	// it could be moved but not replaced by a link.
+	filePath = filepath.Clean(filePath)
 	// If file doesn't exist (e.g. stage just didn't create it)
 	// then report null
 	if info, err := os.Lstat(filePath); os.IsNotExist(err) {
